@@ -292,7 +292,11 @@ def run_sharded(exe, mode, lines, workdir, tag, timeout=3000):
 def evaluate(ctx, cases, drv, mdl, rules, tag, rule_cov, stats, max_report=5):
     """run both sides on the cases, compare, apply the oracle.  Returns number of problems reported."""
     num_of = {v: k for k, v in rules.items()}
-    scripts = [";".join(g.to_script(c["world"])) for c in cases]
+    scripts = []
+    for c in cases:
+        g.SPELLING = c.get("spelling", 0)
+        scripts.append(";".join(g.to_script(c["world"])))
+    g.SPELLING = 0
     tokens = [g.to_tokens(c["world"]) for c in cases]
     import time
     t0 = time.time()
@@ -329,7 +333,11 @@ def evaluate(ctx, cases, drv, mdl, rules, tag, rule_cov, stats, max_report=5):
                 problems.append("CORRESPONDENCE: implementation %s (+%d DTD, %d XML) vs model %s" % (names(core), dtd, xml, names(pm)))
             if any(l != "E" for (l, _r) in ims):
                 problems.append("ORACLE: an issue of the validator is not of level ERROR: %s" % names(ims))
-            if c["kind"] == "valid":
+            if c["kind"] == "corr":
+                stats["corr"] += 1
+                if pm:
+                    stats["corr_rejected"] += 1
+            elif c["kind"] == "valid":
                 stats["valid"] += 1
                 if total != 0:
                     problems.append("ORACLE valid => 0 issues: implementation reports %s (%d from the DTD pass, %d XML)" % (names(ims), dtd, xml))
@@ -507,6 +515,38 @@ def chains_check(ctx, drv, mdl, rules, rule_cov, stats, quick):
     return len(cases), dict(hist)
 
 
+def directed_math_conn_check(ctx, drv, mdl, rules, rule_cov, stats):
+    """(a) arity sweep: every operator x 0..4 operands, in component math and in reset test/reset values (verdict: the
+    model, i.e. MathDefs.val_node); (b) attribute spellings of math strings set through the API; (c) every position of the
+    faulty mapping in a variable's equivalence list, next to a placeholder variable of an imported component"""
+    import itertools
+    cases = []
+    for where in ("component", "test_value", "reset_value"):
+        for op in g.SWEEP_OPERATORS:
+            for n in range(0, 5):
+                cases.append({"kind": "corr", "world": g.arity_world(op, n, where),
+                              "info": {"fault": "arity-sweep", "where": "arity-sweep/%s/%s/%d" % (where, op, n), "cite": []}})
+    nsweep = len(cases)
+    for (name, kind, cite, world) in g.spelling_worlds():
+        for sp in range(g.N_SPELLINGS):
+            cases.append({"kind": kind, "world": world, "spelling": sp,
+                          "info": {"fault": "spelling/" + name, "where": "attribute-spelling-%d/%s" % (sp, name), "cite": cite}})
+    nspell = len(cases) - nsweep
+    for oa in itertools.permutations(["w", "c", "b"]):
+        for ob in (["w", "a"], ["a", "w"]):
+            for faulty in (True, False):
+                cases.append({"kind": "fault" if faulty else "valid", "world": g.eqlist_world(list(oa), ob, faulty),
+                              "info": {"fault": "equivalence-list-order", "where": "equivalence-list/%s/%s" % ("".join(oa), "".join(ob)),
+                                       "cite": ["MAP_VARIABLES_ELEMENT"] if faulty else []}})
+    neq = len(cases) - nsweep - nspell
+    before = stats["corr_rejected"]
+    n = evaluate(ctx, cases, drv, mdl, rules, "directed", rule_cov, stats)
+    ctx.log("directed: arity sweep %d (%d rejected by the model), attribute spellings %d, equivalence-list orders %d, problems %d" %
+            (nsweep, stats["corr_rejected"] - before, nspell, neq, n))
+    return len(cases), {"arity_sweep": nsweep, "arity_sweep_rejected": stats["corr_rejected"] - before,
+                        "attribute_spellings": nspell, "equivalence_list_orders": neq}
+
+
 def numbers_check(ctx, drv, mdl, rules, rule_cov, stats):
     """every near-miss / boundary number string in every position that takes a number; expected verdict from the
     automata of C16 (LC.NumDefs.real_dfa / int_dfa), correspondence with the extracted validate"""
@@ -635,6 +675,9 @@ def run(ctx):
     # ---- numbers: systematic near-miss strings in every number position
     nnum, numhist = numbers_check(ctx, drv, mdl, rules, rule_cov, stats)
 
+    # ---- arity sweep, attribute spellings, equivalence-list orders
+    ndir, dirhist = directed_math_conn_check(ctx, drv, mdl, rules, rule_cov, stats)
+
     # ---- units compatibility through deep chains
     nchain, chainhist = chains_check(ctx, drv, mdl, rules, rule_cov, stats, quick)
 
@@ -695,7 +738,7 @@ def run(ctx):
             if h not in seen:
                 seen.add(h)
                 nontrivial += 1
-    ctx.cov["evaluations"] += len(cases) + ncorpus + nnum + nchain
+    ctx.cov["evaluations"] += len(cases) + ncorpus + nnum + nchain + ndir
     ctx.cov["distinct_nontrivial"] = nontrivial
     ctx.cov["rule"] = ("a case is a world (model + the models attached to its import sources) built through the public API and validated by "
                        "Validator::validateModel and by the extracted ValidDefs.validate; non-trivial = a valid world with exactly one injected "
@@ -703,7 +746,7 @@ def run(ctx):
     ctx.cov["rule_coverage"] = {r: {"injected": v["injected"], "detected": v["detected"], "locations": dict(v["locations"])}
                                 for r, v in sorted(rule_cov.items())}
     ctx.cov["input_distribution"] = {"cases": dict(stats), "fault_location_classes": dict(loc_hist), "world_shapes": dict(size_hist),
-                                     "units_chains_and_import_order": dict(chain_hist), "units_chains_directed": chainhist,
+                                     "units_chains_and_import_order": dict(chain_hist), "units_chains_directed": chainhist, "directed_math_and_connections": dirhist,
                                      "name_strings": nstr, "corpus_cases": ncorpus, "number_cases": numhist,
                                      "sequences_on_one_validator": nseq}
     ctx.cov["samples"] = [cases[0] and g.to_tokens(cases[0]["world"])[:400], json.dumps(cases[1]["info"]) if len(cases) > 1 else "",
